@@ -114,6 +114,8 @@ class WatchdogTimeout(BaseException):
 
 
 class watchdog:
+    hits = 0
+
     def __init__(self, seconds=20):
         self.seconds = seconds
 
@@ -121,9 +123,12 @@ class watchdog:
         import signal
 
         def handler(signum, frame):
+            watchdog.hits += 1
             raise WatchdogTimeout("call did not finish within %ds" % self.seconds)
         self._old = signal.signal(signal.SIGALRM, handler)
-        signal.setitimer(signal.ITIMER_REAL, self.seconds)
+        # once three calls in this process have run into their limit, non-termination is established (and reported by the caller):
+        # later calls get one second each, so that a code change which never terminates does not cost hours of watchdog time
+        signal.setitimer(signal.ITIMER_REAL, self.seconds if watchdog.hits < 3 else min(self.seconds, 1))
         return self
 
     def __exit__(self, *a):
